@@ -100,7 +100,7 @@ func C16(c *Ctx) {
 		var regionFns []*ssa.Function
 		callSites := map[*ssa.Function][]ssa.CallInstruction{} // helper -> its call sites inside the region
 		for _, rf := range c.regionOf(check, 3) {
-			if rf.fn.Parent() == nil && (rf.fn == check || strings.Contains(core.FnName(rf.fn), "InterchainManager")) {
+			if rf.fn.Parent() == nil && (rf.fn == check || c.isInterchainFn(rf.fn)) {
 				regionFns = append(regionFns, rf.fn)
 			}
 		}
@@ -1270,4 +1270,13 @@ func (c *Ctx) c16PauseScope() {
 		rs := core.Reach([]core.Point{core.EntryOf(fn)}, nil, core.CutOf(notFrozen))
 		r.Check(!rs.Has(in), "R16.11", key, c.P.Pos(in.Pos()), "the status change lies behind a test excluding frozen", "the status change to pause is reachable without the test that excludes a frozen service")
 	}
+}
+
+// isInterchainFn: a method of the interchain manager, or of a context struct that carries it (ibtpCheck{x: ..}).
+func (c *Ctx) isInterchainFn(fn *ssa.Function) bool {
+	if strings.Contains(core.FnName(fn), "InterchainManager") {
+		return true
+	}
+	ct := c.Contracts().bvm.ContractOfFn(fn)
+	return ct != nil && ct.Name == "InterchainManager"
 }
